@@ -332,6 +332,17 @@ func (h *H) onlyIf(s *snapshot, delivered []*raw, what string) error {
 		if err != nil {
 			return fmt.Errorf("Storage.Has: %w", err)
 		}
+		if onDisk {
+			// what a reader of the storage gets under this id (copied: storage buffers alias)
+			sc, err := h.tree.Storage().Get(ctx, d.Id)
+			if err != nil {
+				return fmt.Errorf("Storage.Get(%s) although Has: %w", d.Id, err)
+			}
+			got := append([]byte(nil), sc.RawChange...)
+			if v := h.judge(d.Id, got, s.byId); !v.ok {
+				return fmt.Errorf("%s: Storage.Get(%s) returns bytes for which %s (bytes %x)", what, d.Id, v.why, got)
+			}
+		}
 		if _, scanned := s.byId[d.Id]; onDisk && !scanned {
 			// present in the collection but not in the scan of this tree: judge what was delivered
 			if v := h.judge(d.Id, d.RawChange, s.byId); !v.ok {
@@ -982,6 +993,12 @@ func run(c Case) (out vstat.Outcome, err error) {
 				}
 			}
 		}
+		// ---- orphan first, then a variant carrying the same id ----
+		for oi, o := range st.Orphans {
+			if err := h.orphanShape(si, oi, o); err != nil {
+				return out, err
+			}
+		}
 	}
 
 	// ---- outcome ----
@@ -1054,4 +1071,76 @@ func (h *H) reopen() error {
 	h.tree = t
 	h.snap, err = h.observe()
 	return err
+}
+
+// orphanShape: a fresh valid chain P -> X by the owner on the current heads. X (or its variant)
+// is delivered while P is withheld, then the variant (same id, other bytes) arrives with,
+// after or before P; finally the genuine pair, which must be accepted.
+func (h *H) orphanShape(si, oi int, o Orph) error {
+	pp := h.planFor(Spec{Par: 0})
+	P, err := h.build(0, h.recId(pp.lo), pp.parents, pp.base, false, "orphan-parent")
+	if err != nil {
+		return err
+	}
+	X, err := h.build(0, h.recId(pp.lo), []string{P.raw.Id}, pp.base, false, "orphan")
+	if err != nil {
+		return err
+	}
+	m := o.M
+	m.Keep = true
+	vs, err := h.mutants(X, []Mut{m}, pp.lo)
+	if err != nil {
+		return err
+	}
+	if len(vs) == 0 {
+		return nil
+	}
+	v := vs[0]
+	what := func(s string) string {
+		return fmt.Sprintf("step %d orphan shape %d/%d (%s): %s", si, oi, o.Shape%4, v.desc, s)
+	}
+	first := X.raw
+	if o.First%2 == 1 {
+		first = v.raw
+		h.classes["orphan-first-variant"] = true
+	} else {
+		h.classes["orphan-first-genuine"] = true
+	}
+	h.classes["orphan-then-same-id-variant"] = true
+	h.classes["orphan-"+v.class] = true
+	h.classes[fmt.Sprintf("orphan-shape-%d", o.Shape%4)] = true
+	h.nMuts++
+	h.byteMut++
+	if _, _, err := h.deliver([]*raw{first}, what("orphan delivered, parent withheld")); err != nil {
+		return err
+	}
+	var seq [][]*raw
+	switch o.Shape % 4 {
+	case 0:
+		seq = [][]*raw{{P.raw, v.raw}}
+	case 1:
+		seq = [][]*raw{{v.raw}, {P.raw, v.raw}}
+	case 2:
+		seq = [][]*raw{{P.raw}, {v.raw}}
+	default:
+		seq = [][]*raw{{v.raw, P.raw}}
+	}
+	for k, payload := range seq {
+		if _, _, err := h.deliver(payload, what(fmt.Sprintf("delivery %d of %d with the same-id variant", k+1, len(seq)))); err != nil {
+			return err
+		}
+	}
+	_, callErr, err := h.deliver([]*raw{P.raw, X.raw}, what("the genuine pair"))
+	if err != nil {
+		return err
+	}
+	if !h.inTree(X.raw.Id) {
+		if mustAccept {
+			return fmt.Errorf("%s: not accepted: %s", what("the genuine pair"), clean(callErr))
+		}
+		h.unexpectedReject(what("the genuine pair"), callErr, X)
+	} else {
+		h.nAccepted++
+	}
+	return nil
 }
